@@ -1,0 +1,111 @@
+package sigand
+
+import (
+	"slices"
+
+	"github.com/bronlabs/errs-go/errs"
+
+	"github.com/bronlabs/bron-crypto/pkg/base/serde"
+	"github.com/bronlabs/bron-crypto/pkg/base/utils"
+	"github.com/bronlabs/bron-crypto/pkg/proofs/sigma"
+)
+
+// The composed statement, commitment and response are the deserialisation trust boundary of an AND proof: a CBOR
+// null inside the array (or a missing branch of the binary composition) decodes to a nil branch, which can never
+// verify and would otherwise be dereferenced by Bytes and Verify. The encoding of valid values is unchanged.
+
+// UnmarshalCBOR deserialises a composed statement and rejects a nil branch.
+func (x *Statement[X]) UnmarshalCBOR(data []byte) error {
+	xs, err := serde.UnmarshalCBOR[[]X](data)
+	if err != nil {
+		return errs.Wrap(err).WithMessage("cannot unmarshal statement")
+	}
+	if slices.ContainsFunc(xs, utils.IsNil[X]) {
+		return ErrInvalidArgument.WithMessage("statements cannot be nil")
+	}
+	*x = xs
+	return nil
+}
+
+// UnmarshalCBOR deserialises a composed commitment and rejects a nil branch.
+func (a *Commitment[A]) UnmarshalCBOR(data []byte) error {
+	as, err := serde.UnmarshalCBOR[[]A](data)
+	if err != nil {
+		return errs.Wrap(err).WithMessage("cannot unmarshal commitment")
+	}
+	if slices.ContainsFunc(as, utils.IsNil[A]) {
+		return ErrInvalidArgument.WithMessage("commitments cannot be nil")
+	}
+	*a = as
+	return nil
+}
+
+// UnmarshalCBOR deserialises a composed response and rejects a nil branch.
+func (z *Response[Z]) UnmarshalCBOR(data []byte) error {
+	zs, err := serde.UnmarshalCBOR[[]Z](data)
+	if err != nil {
+		return errs.Wrap(err).WithMessage("cannot unmarshal response")
+	}
+	if slices.ContainsFunc(zs, utils.IsNil[Z]) {
+		return ErrInvalidArgument.WithMessage("responses cannot be nil")
+	}
+	*z = zs
+	return nil
+}
+
+type statementCartesianDTO[X0, X1 sigma.Statement] struct {
+	X0 X0
+	X1 X1
+}
+
+type commitmentCartesianDTO[A0, A1 sigma.Commitment] struct {
+	A0 A0
+	A1 A1
+}
+
+type responseCartesianDTO[Z0, Z1 sigma.Response] struct {
+	Z0 Z0
+	Z1 Z1
+}
+
+// UnmarshalCBOR deserialises a binary composed statement and rejects a missing branch.
+func (x *StatementCartesian[X0, X1]) UnmarshalCBOR(data []byte) error {
+	dto, err := serde.UnmarshalCBOR[*statementCartesianDTO[X0, X1]](data)
+	if err != nil {
+		return errs.Wrap(err).WithMessage("cannot unmarshal statement")
+	}
+	if dto == nil || utils.IsNil(dto.X0) || utils.IsNil(dto.X1) {
+		return ErrInvalidArgument.WithMessage("statements cannot be nil")
+	}
+	x.X0 = dto.X0
+	x.X1 = dto.X1
+	return nil
+}
+
+// UnmarshalCBOR deserialises a binary composed commitment and rejects a missing branch.
+func (a *CommitmentCartesian[A0, A1]) UnmarshalCBOR(data []byte) error {
+	dto, err := serde.UnmarshalCBOR[*commitmentCartesianDTO[A0, A1]](data)
+	if err != nil {
+		return errs.Wrap(err).WithMessage("cannot unmarshal commitment")
+	}
+	if dto == nil || utils.IsNil(dto.A0) || utils.IsNil(dto.A1) {
+		return ErrInvalidArgument.WithMessage("commitments cannot be nil")
+	}
+	a.A0 = dto.A0
+	a.A1 = dto.A1
+	return nil
+}
+
+// UnmarshalCBOR deserialises a binary composed response and rejects a missing branch.
+func (z *ResponseCartesian[Z0, Z1]) UnmarshalCBOR(data []byte) error {
+	dto, err := serde.UnmarshalCBOR[*responseCartesianDTO[Z0, Z1]](data)
+	if err != nil {
+		return errs.Wrap(err).WithMessage("cannot unmarshal response")
+	}
+	if dto == nil || utils.IsNil(dto.Z0) || utils.IsNil(dto.Z1) {
+		return ErrInvalidArgument.WithMessage("responses cannot be nil")
+	}
+	z.Z0 = dto.Z0
+	z.Z1 = dto.Z1
+	return nil
+}
